@@ -29,6 +29,10 @@ type Field struct {
 	ID    uint16
 	PEN   uint32
 	Len   uint16 // width in force (registry width for known elements, wire width for unknown ones)
+	// WireLen is the width the template announced. For a known element it may differ from the registry
+	// width; the library decodes at the registry width, a library honouring the announced width would
+	// also satisfy the statements, so both readings are accepted for THAT template (never for others).
+	WireLen uint16
 	Known bool
 	Type  entities.IEDataType
 	Name  string
@@ -65,7 +69,30 @@ type Expect struct {
 	SetID   uint16
 }
 
+// The model works on a private copy of the registry tables taken at start-up, so that a library bug
+// which mutates the shared registry entries cannot drag the model along.
+var snapshot map[[2]uint32]entities.InfoElement
+
+// SnapshotRegistry copies every element of the given enterprises out of the library's registry.
+func SnapshotRegistry(pens []uint32) {
+	snapshot = map[[2]uint32]entities.InfoElement{}
+	for _, pen := range pens {
+		for id := 0; id < 65536; id++ {
+			if ie, err := registry.GetInfoElementFromID(uint16(id), pen); err == nil && ie != nil {
+				snapshot[[2]uint32{pen, uint32(id)}] = *ie
+			}
+		}
+	}
+}
+
 func lookup(id uint16, pen uint32) (*entities.InfoElement, bool) {
+	if snapshot != nil {
+		ie, ok := snapshot[[2]uint32{pen, uint32(id)}]
+		if !ok {
+			return nil, false
+		}
+		return &ie, true
+	}
 	ie, err := registry.GetInfoElementFromID(id, pen)
 	if err != nil {
 		return nil, false
@@ -79,6 +106,35 @@ func specs(fs []Field) []refcodec.FieldSpec {
 		out[i] = refcodec.FieldSpec{ID: f.ID, PEN: f.PEN, Len: f.Len}
 	}
 	return out
+}
+
+// wireSpecs is the reading in which announced widths are honoured; ok=false when it equals specs.
+func wireSpecs(fs []Field) ([]refcodec.FieldSpec, bool) {
+	out := make([]refcodec.FieldSpec, len(fs))
+	differs := false
+	for i, f := range fs {
+		out[i] = refcodec.FieldSpec{ID: f.ID, PEN: f.PEN, Len: f.WireLen}
+		if f.WireLen != f.Len {
+			differs = true
+			if w := common.FixedWidth(f.Type); w != 0 && int(f.WireLen) > w {
+				return nil, false // a width larger than the type's has no reading
+			}
+			if common.FixedWidth(f.Type) != 0 && f.WireLen != f.Len {
+				return nil, false // reduced-size numeric encodings: no reference decoding here, reading not offered
+			}
+		}
+	}
+	return out, differs
+}
+
+// HasAnnouncedWidths reports whether some known field announced a width other than the registry's.
+func HasAnnouncedWidths(fs []Field) bool {
+	for _, f := range fs {
+		if f.Known && f.WireLen != f.Len {
+			return true
+		}
+	}
+	return false
 }
 
 // Message advances the model by one received message and says what the implementation may do.
@@ -114,14 +170,14 @@ func (s *Store) template(p refcodec.Parsed) Expect {
 				delete(s.T, k)
 				return Expect{Kind: MustErr, Why: fmt.Sprintf("unknown element %d/%d in strict mode", f.PEN, f.ID)}
 			}
-			fields = append(fields, Field{ID: f.ID, PEN: f.PEN, Len: f.Len, Known: false, Type: entities.OctetArray})
+			fields = append(fields, Field{ID: f.ID, PEN: f.PEN, Len: f.Len, WireLen: f.Len, Known: false, Type: entities.OctetArray})
 			continue
 		}
 		if !common.SupportedType(ie.DataType) {
 			delete(s.T, k)
 			return Expect{Kind: MustErr, Why: fmt.Sprintf("element %s has unsupported type %d", ie.Name, ie.DataType)}
 		}
-		fields = append(fields, Field{ID: f.ID, PEN: f.PEN, Len: ie.Len, Known: true, Type: ie.DataType, Name: ie.Name})
+		fields = append(fields, Field{ID: f.ID, PEN: f.PEN, Len: ie.Len, WireLen: f.Len, Known: true, Type: ie.DataType, Name: ie.Name})
 	}
 	s.T[k] = fields
 	return Expect{Kind: Template, Fields: fields, Header: p.Header, SetID: 2}
@@ -154,17 +210,27 @@ func (s *Store) data(p refcodec.Parsed, b []byte) Expect {
 		e.ErrAllowed = true // framing disagrees with the bytes received: either reading, or a refusal
 	}
 	valid := 0
-	for _, body := range bodies {
-		recs, pad, err := refcodec.ParseDataBody(body, specs(fields))
-		if err != nil {
-			continue
-		}
-		valid++
-		if pad > 0 || len(recs) == 0 {
-			e.ErrAllowed = true
-		}
-		e.Records = append(e.Records, s.render(fields, recs))
+	readings := [][]refcodec.FieldSpec{specs(fields)}
+	if ws, ok := wireSpecs(fields); ok {
+		readings = append(readings, ws)
+		e.ErrAllowed = true
+	} else if HasAnnouncedWidths(fields) {
+		e.ErrAllowed = true
 	}
+	for _, body := range bodies {
+		for _, sp := range readings {
+			recs, pad, err := refcodec.ParseDataBody(body, sp)
+			if err != nil {
+				continue
+			}
+			valid++
+			if pad > 0 || len(recs) == 0 {
+				e.ErrAllowed = true
+			}
+			e.Records = append(e.Records, s.render(fields, recs))
+		}
+	}
+	bodies = append(bodies, make([][]byte, (len(readings)-1)*len(bodies))...)
 	if valid == 0 {
 		return Expect{Kind: MustErr, Why: "set body has no valid parse under the template in force"}
 	}
@@ -175,7 +241,10 @@ func (s *Store) data(p refcodec.Parsed, b []byte) Expect {
 }
 
 // Canon renders the store canonically (same notation as ImplCanon in the harness).
-func (s *Store) Canon() string {
+func (s *Store) Canon() string { return s.CanonReading(false) }
+
+// CanonReading renders the store; wire=true uses announced widths for known elements.
+func (s *Store) CanonReading(wire bool) string {
 	var keys []Key
 	for k := range s.T {
 		keys = append(keys, k)
@@ -190,7 +259,11 @@ func (s *Store) Canon() string {
 	for _, k := range keys {
 		fmt.Fprintf(&sb, "[%d/%d:", k.Domain, k.ID)
 		for _, f := range s.T[k] {
-			fmt.Fprintf(&sb, " %d.%d/%d/t%d/%q", f.PEN, f.ID, f.Len, f.Type, f.Name)
+			l := f.Len
+			if wire {
+				l = f.WireLen
+			}
+			fmt.Fprintf(&sb, " %d.%d/%d/t%d/%q", f.PEN, f.ID, l, f.Type, f.Name)
 		}
 		sb.WriteString("]")
 	}
